@@ -163,6 +163,36 @@ pub fn run_connection(port: u16, r: &mut Rng, cmds: &[Cmd], model: &mut HashMap<
     let stream = connect(port).map_err(|e| Failure { sig: "connect-failed", desc: format!("connect failed: {}", e) })?;
     let mut tx = stream.try_clone().map_err(|e| Failure { sig: "connect-failed", desc: e.to_string() })?;
     let mut rx = Rx::new(stream);
+    if depth_class == 3 {
+        // "overhang": every write carries the rest of request i plus the first bytes of request
+        // i+1, and the client waits for reply i before it sends any more. The reply to a request
+        // that was sent completely must not depend on what else the segment carried.
+        let mut sent_prefix = 0usize;
+        for i in 0..cmds.len() {
+            let mut payload = reqs[i][sent_prefix..].to_vec();
+            let next_prefix = if i + 1 < cmds.len() { r.range(1, (reqs[i + 1].len() as u64 - 1).min(64)) as usize } else { 0 };
+            if next_prefix > 0 {
+                payload.extend_from_slice(&reqs[i + 1][..next_prefix]);
+            }
+            if let Err(e) = tx.write_all(&payload) {
+                return Err(Failure { sig: "connection-closed-on-wellformed-request", desc: format!("command #{} ({}): write failed: {}", i, cmds[i].brief(), e) });
+            }
+            let res = rx.need(replies[i].len(), Instant::now() + Duration::from_secs(20));
+            let got: Vec<u8> = rx.buf.drain(..replies[i].len().min(rx.buf.len())).collect();
+            if got != replies[i] {
+                let (sig, how) = match res {
+                    Ok(()) => ("wrong-reply", "the reply bytes differ"),
+                    Err(ReadErr::Timeout) => ("no-reply", "no (complete) reply within 20 s"),
+                    _ => ("connection-closed-on-wellformed-request", "the server closed the connection"),
+                };
+                return Err(Failure { sig, desc: format!("command #{} of {} ({}) was sent completely, followed in the same segment by the first {} bytes of the next request; the client waits for this reply before sending more: {}; expected {} but received {}", i, cmds.len(), cmds[i].brief(), next_prefix, how, show(&replies[i]), show(&got)) });
+            }
+            out.count("commands_verified", 1);
+            sent_prefix = next_prefix;
+        }
+        out.count("request_bytes", total_req as u64);
+        return Ok((true, 1));
+    }
     let depth = match depth_class {
         0 => 1,
         1 => r.range(2, 8) as usize,
@@ -304,7 +334,7 @@ fn worker(ctx: &Ctx, out: &mut Out) {
         let runs = r.range(2, 3);
         for _ in 0..runs {
             let seg_class = r.weighted(&[25, 35, 20, 20]);
-            let depth_class = r.weighted(&[35, 35, 30]);
+            let depth_class = r.weighted(&[28, 28, 24, 20]);
             out.evaluations += 1;
             out.count("connections", 1);
             match run_connection(srv.port, &mut r, &cmds, &mut model, seg_class, depth_class, out) {
@@ -322,7 +352,7 @@ fn worker(ctx: &Ctx, out: &mut Out) {
             }
         }
         out.max("largest_value", cmds.iter().map(|c| match c { Cmd::Set(_, v) => v.len() as u64, _ => 0 }).max().unwrap_or(0));
-        if out.samples.len() < 2 && case % 97 == 3 {
+        if out.samples.len() < 2 && (case % 97 == 3 || out.samples.is_empty()) {
             let mut m2 = HashMap::new();
             out.sample(json!({"case": case, "pairs_head": cmds.iter().take(10).map(|c| { let rep = encode(&c.apply(&mut m2)); json!([c.brief(), show(&rep)]) }).collect::<Vec<_>>()}));
         }
